@@ -4,7 +4,20 @@
 
 package cache
 
-import "github.com/cnotch/ipchub/av/format"
+import (
+	"github.com/cnotch/ipchub/av/format"
+	"github.com/cnotch/queue"
+)
 
 // Pack .
 type Pack = format.Packet
+
+// containsPack 判断包(按对象标识)是否已在列表中
+func containsPack(packs []queue.Elem, p Pack) bool {
+	for _, e := range packs {
+		if e == p {
+			return true
+		}
+	}
+	return false
+}
